@@ -40,9 +40,10 @@ def regex_pat(draw, escapes=True, quotes=False):
     return p
 
 
+AMOUNT_CONSTS = lang.CONSTS + [10000.01, 12345.67, 250000.25, 1234.5, 99.99, 0.01, 1000000, 123456.78]
 amount_mod = st.one_of(
-    st.tuples(st.sampled_from(['>', '>=', '<', '<=', '=']), st.sampled_from(lang.CONSTS)).map(lambda t: {'k': 'amount', 'op': t[0], 'v': t[1]}),
-    st.tuples(st.sampled_from(lang.CONSTS), st.sampled_from(lang.CONSTS)).map(lambda t: {'k': 'amount', 'op': ':', 'lo': min(t), 'hi': max(t)}),
+    st.tuples(st.sampled_from(['>', '>=', '<', '<=', '=']), st.sampled_from(AMOUNT_CONSTS)).map(lambda t: {'k': 'amount', 'op': t[0], 'v': t[1]}),
+    st.tuples(st.sampled_from(AMOUNT_CONSTS), st.sampled_from(AMOUNT_CONSTS)).map(lambda t: {'k': 'amount', 'op': ':', 'lo': min(t), 'hi': max(t)}),
 )
 date_mod = st.one_of(
     st.sampled_from(lang.DATES).map(lambda d: {'k': 'date', 'op': '=', 'd': d}),
